@@ -183,10 +183,16 @@ Definition sp_import (sp : spec) (g : N) (ig : igraph) : spec * res :=
 Definition sp_import_direct (sp : spec) (g : N) (ig : igraph) : spec * res :=
   (sput sp g (sp_of_igraph None ig), Ok RUnit).
 
+Definition sp_missing (ps : props) : bool :=
+  match aget k_nodeid ps with Some v => negb (truthy v) | None => true end.
+
+(* clone = import of the source's content under the new id (a node without NodeID is refused, after the
+   old content of the new id was dropped, exactly as an import would) *)
 Definition sp_clone (sp : spec) (g g2 : N) : spec * res :=
   match sn (sget sp g) with
   | [] => (sp, Err EAttr)
-  | l => (sput sp g2 (mkSG (map (aset k_graphid (PV g2)) l) (se (sget sp g))), Ok RUnit)
+  | l => if existsb sp_missing l then (sput sp g2 empty_sg, Err EImport)
+         else (sput sp g2 (mkSG (map (aset k_graphid (PV g2)) l) (se (sget sp g))), Ok RUnit)
   end.
 
 Definition splift (sp : spec) (g : N) (x : sgraph * res) : spec * res := (sput sp g (fst x), snd x).
@@ -229,7 +235,7 @@ Definition direct_ok (g : N) (ig : igraph) : bool :=
   forallb (fun n => has_val (snd n) k_graphid g) (inodes ig).
 Fixpoint nodupN (l : list N) : bool :=
   match l with [] => true | x :: r => negb (memN x r) && nodupN r end.
-Definition keys_ok (ig : igraph) : bool := nodupN (map fst (inodes ig)) && edges_ok ig.
+Definition keys_ok (ig : igraph) : bool := nodupN (map fst (inodes ig)) && edges_ok ig && links_distinct ig.
 
 Definition in_spec_scope (o : op) : bool :=
   match o with
@@ -274,12 +280,23 @@ Fixpoint spec_results (sp : spec) (ops : list op) : list res :=
 Definition spec_run (ops : list op) (sp : spec) : spec := fold_left (fun sp o => fst (spec_step sp o)) ops sp.
 
 (* the operations of the C05 quantifier that the reference model covers: node / link / property
-   operations, listings, tests, matching, delete graph - not merge, not import / clone (C04), and no
-   rewriting of GraphID / NodeID *)
-Definition refine_scope (o : op) : bool :=
+   operations, listings, tests, matching, delete graph - not merge, and no rewriting of GraphID / NodeID *)
+Definition refine_scope0 (o : op) : bool :=
   match o with
   | OImport _ _ | OImportDirect _ _ | OClone _ _ | OMerge _ _ _ _ => false
   | _ => in_spec_scope o
+  end.
+
+(* ... plus the storage operations import / direct import / clone (imported graphs are networkx graphs:
+   distinct node keys, links join their own nodes, one link per pair) *)
+Definition refine_scope (o : op) : bool :=
+  match o with OMerge _ _ _ _ => false | _ => in_spec_scope o end.
+
+(* the steps at which the one-graph-per-id store is in the reference model's domain (see in_disjoint_scope) *)
+Fixpoint disjoint_scope_run (sp : spec) (ops : list op) : bool :=
+  match ops with
+  | [] => true
+  | o :: r => in_disjoint_scope sp o && disjoint_scope_run (fst (spec_step sp o)) r
   end.
 
 (* ---------- comparison used by the lock-step cases ---------- *)
@@ -297,10 +314,140 @@ Definition lstep_obs := (op * (res * option nxg) * (res * option dsnap))%type.
 Definition gids_of (o : op) : list N :=
   match o with OClone g g2 | OMatching g g2 | OMerge g _ g2 _ => [g; g2] | _ => [target o] end.
 
-(* models vs their implementations at every step; the reference model vs both as long as the history
-   stays inside its scope ([live]): results equal and the abstraction of both stores equals the
-   reference state on every graph id seen so far *)
-Fixpoint check_lock_from (s : store) (d : dstore) (sp : spec) (live : bool) (seen : list N)
+(* ------------------------------------------------------------------------------------------ *)
+(* the reference model extended by cross-graph links, just enough to follow merge_nodes:          *)
+(* a link whose two ends are nodes of DIFFERENT graphs (what merge_nodes leaves between the         *)
+(* surviving node and the other graph's neighbours until those are merged or re-homed) is kept     *)
+(* beside the per-graph states, its ends named by (graph id, NodeID).  No graph sees it; it        *)
+(* matters when a later merge brings both ends into one graph, and it dies with either end.        *)
+(* For merge-free histories [xl] stays empty and [xspec_step] is [spec_step].                      *)
+(* ------------------------------------------------------------------------------------------ *)
+Definition xend := (N * skey)%type.
+Definition xlink := (xend * xend * props)%type.
+Record xspec := mkX { xs : spec; xl : list xlink }.
+Definition init_xspec : xspec := mkX [] [].
+
+Definition xend_eqb (a b : xend) : bool := N.eqb (fst a) (fst b) && skey_eqb (snd a) (snd b).
+Definition xlink_touches (e : xend) (l : xlink) : bool :=
+  let '(a, b, _) := l in xend_eqb a e || xend_eqb b e.
+Definition xlink_in_graph (g : N) (l : xlink) : bool :=
+  let '(a, b, _) := l in N.eqb (fst a) g || N.eqb (fst b) g.
+Definition xlink_is (a b : xend) (l : xlink) : bool :=
+  let '(x, y, _) := l in (xend_eqb x a && xend_eqb y b) || (xend_eqb x b && xend_eqb y a).
+
+Definition is_ok (r : res) : bool := match r with Ok _ => true | Err _ => false end.
+
+(* operations that delete nodes take their cross-graph links along *)
+Definition x_maintain (l : list xlink) (o : op) (r : res) : list xlink :=
+  match o with
+  | ODelNode g n => if is_ok r then filter (fun x => negb (xlink_touches (g, Some n) x)) l else l
+  | ODelGraph g | OImport g _ | OImportDirect g _ => filter (fun x => negb (xlink_in_graph g x)) l
+  | OClone _ g2 => match r with
+                   | Err EAttr => l
+                   | _ => filter (fun x => negb (xlink_in_graph g2 x)) l
+                   end
+  | _ => l
+  end.
+
+Definition strip_c (ps : props) : props := drop_key k_contraction ps.
+
+(* one link of the merged node v = (g2, n), re-homed to u = (g, n); [other] is its far end.
+   A link the surviving node already has is kept as it is. *)
+Definition x_rehome (g n : N) (acc : sgraph * list xlink) (far : xend) (ps : props) : sgraph * list xlink :=
+  let '(Xg, l) := acc in
+  if N.eqb (fst far) g then
+    match snd far with
+    | Some y => match sp_edge Xg n y with
+                | Some _ => (Xg, l)
+                | None => (mkSG (sn Xg) (se Xg ++ [(Some n, Some y, ps)]), l)
+                end
+    | None => (mkSG (sn Xg) (se Xg ++ [(Some n, None, ps)]), l)
+    end
+  else if existsb (xlink_is (g, Some n) far) l then (Xg, l)
+       else (Xg, l ++ [((g, Some n), far, ps)]).
+
+Definition x_merge (X : xspec) (g n g2 : N) (pol : option (list (N * N))) : xspec * res :=
+  let sp := xs X in
+  if N.eqb g g2 then (X, Err EOther) else
+  if negb (sp_exists (sget sp g2)) then (X, Err EAssert) else
+  match sp_find (sget sp g) n, sp_find (sget sp g2) n with
+  | Some mine, Some other =>
+      let np := match pol with
+                | None => Some mine
+                | Some p => merge_props p mine other mine
+                end in
+      match np with
+      | None => (X, Err EKey)
+      | Some np =>
+          let Xg2 := sget sp g2 in
+          let v := (g2, Some n) in
+          (* the other graph loses the node and the links it had inside that graph *)
+          let Xg2' := mkSG (filter (fun ps => negb (nid_is n ps)) (sn Xg2))
+                           (filter (fun e => negb (sedge_touches n e)) (se Xg2)) in
+          let inside := filter (sedge_touches n) (se Xg2) in
+          let crossing := filter (xlink_touches v) (xl X) in
+          let l0 := filter (fun x => negb (xlink_touches v x)) (xl X) in
+          (* links inside the other graph become links from the survivor into the other graph (or a self-link) *)
+          let acc1 := fold_left (fun acc e => let '(a, b, ps) := e in
+                                              let y := if skey_is a n then b else a in
+                                              let far := if skey_is y n then (g, Some n) else (g2, y) in
+                                              x_rehome g n acc far ps) inside (sget sp g, l0) in
+          (* its cross-graph links follow *)
+          let acc2 := fold_left (fun acc x => let '(a, b, ps) := x in
+                                              let far := if xend_eqb a v then b else a in
+                                              x_rehome g n acc far ps) crossing acc1 in
+          let '(Xg, l2) := acc2 in
+          (* the survivor's links lose networkx's bookkeeping, the survivor gets the merged properties *)
+          let Xg' := mkSG (map (fun ps => if nid_is n ps then np else ps) (sn Xg))
+                          (map (fun e => if sedge_touches n e then (fst (fst e), snd (fst e), strip_c (snd e)) else e) (se Xg)) in
+          let l3 := map (fun x => if xlink_touches (g, Some n) x then (fst (fst x), snd (fst x), strip_c (snd x)) else x) l2 in
+          (mkX (sput (sput sp g2 Xg2') g Xg') l3, Ok RUnit)
+      end
+  | _, _ => (X, Err EQuery)
+  end.
+
+Definition xspec_step (X : xspec) (o : op) : xspec * res :=
+  match o with
+  | OMerge g n g2 pol => x_merge X g n g2 pol
+  | _ => let '(sp', r) := spec_step (xs X) o in (mkX sp' (x_maintain (xl X) o r), r)
+  end.
+
+Definition xscope (o : op) : bool :=
+  match o with
+  | OMerge _ _ _ None => true
+  | OMerge _ _ _ (Some pol) => negb (ahas k_graphid pol) && negb (ahas k_nodeid pol)
+  | _ => in_spec_scope o
+  end.
+
+(* the cross-graph links of a store, ends named by (graph id, NodeID) *)
+Definition node_gid (G : nxg) (i : N) : option N :=
+  match nx_node G i with
+  | Some ps => match aget k_graphid ps with Some (PV g) => Some g | _ => None end
+  | None => None
+  end.
+Definition node_nidkey (G : nxg) (i : N) : skey :=
+  match nx_node G i with Some ps => nid_key ps | None => None end.
+Fixpoint abs_cross_from (G : nxg) (l : list edge) : list xlink :=
+  match l with
+  | [] => []
+  | (a, b, ps) :: r =>
+      match node_gid G a, node_gid G b with
+      | Some ga, Some gb => if N.eqb ga gb then abs_cross_from G r
+                            else ((ga, node_nidkey G a), (gb, node_nidkey G b), ps) :: abs_cross_from G r
+      | _, _ => abs_cross_from G r
+      end
+  end.
+Definition abs_cross (G : nxg) : list xlink := abs_cross_from G (ge G).
+Definition xlink_eqb (a b : xlink) : bool :=
+  let '(a1, b1, p1) := a in let '(a2, b2, p2) := b in
+  ((xend_eqb a1 a2 && xend_eqb b1 b2) || (xend_eqb a1 b2 && xend_eqb b1 a2)) && props_eqb p1 p2.
+
+(* models vs their implementations at every step; the (extended) reference model vs the shared store as
+   long as the history stays inside [xscope], vs the one-graph-per-id store as long as it stays inside
+   [in_spec_scope] and [in_disjoint_scope] (a merge ends that): results equal, the abstraction of the
+   store equals the reference state on every graph id seen so far, the store's cross-graph links are
+   the reference's *)
+Fixpoint check_lock_from (s : store) (d : dstore) (X : xspec) (live_s live_d : bool) (seen : list N)
          (ls : nxg) (ld : dsnap) (l : list lstep_obs) : bool :=
   match l with
   | [] => true
@@ -309,17 +456,20 @@ Fixpoint check_lock_from (s : store) (d : dstore) (sp : spec) (live : bool) (see
       let '(d', rd') := dstep d o in
       let cs := match ss with Some x => x | None => ls end in
       let cd := match sd with Some x => x | None => ld end in
-      let live' := live && in_spec_scope o && in_disjoint_scope sp o in
-      let '(sp', rsp) := spec_step sp o in
+      let live_s' := live_s && xscope o in
+      let live_d' := live_d && in_spec_scope o && in_disjoint_scope (xs X) o in
+      let '(X', rsp) := xspec_step X o in
       let seen' := gids_of o ++ seen in
       res_eqb rs' rs && nxg_eqb (sg s') cs && res_eqb rd' rd && dsnap_eqb d' cd &&
-      (if live' then
-         res_eqb rsp rs && res_eqb rsp rd &&
-         forallb (fun g => sgraph_eqb (abs_shared s' g) (sget sp' g) &&
-                           sgraph_eqb (abs_disjoint d' g) (sget sp' g)) seen'
+      (if live_s' then
+         res_eqb rsp rs && forallb (fun g => sgraph_eqb (abs_shared s' g) (sget (xs X') g)) seen' &&
+         perm_eqb xlink_eqb (abs_cross (sg s')) (xl X')
        else true) &&
-      check_lock_from s' d' sp' live' seen' cs cd rest
+      (if live_d' then
+         res_eqb rsp rd && forallb (fun g => sgraph_eqb (abs_disjoint d' g) (sget (xs X') g)) seen'
+       else true) &&
+      check_lock_from s' d' X' live_s' live_d' seen' cs cd rest
   end.
 
 Definition check_lock (l : list lstep_obs) : bool :=
-  check_lock_from init_store init_dstore [] true [] empty_nxg [] l.
+  check_lock_from init_store init_dstore init_xspec true true [] empty_nxg [] l.
